@@ -213,7 +213,7 @@ def wrapper_paths(p, deco):
     def may_raise(node):
         if isinstance(node, (tuple, ast.expr)) or isinstance(node, FuncT):
             return []
-        if any(isinstance(x, ast.Await) and isinstance(x.value, ast.Call) and (dotted(x.value.func) or "").endswith("wait_for")
+        if any(isinstance(x, ast.Await) and isinstance(x.value, ast.Call) and (dotted(x.value.func) or "") in ("asyncio.wait_for", "wait_for")
                for x in walk_self(node)):
             return ["TimeoutError"]
         return []
